@@ -4,11 +4,11 @@
    trace is accepted iff every start instant is exactly the one the laws give. *)
 EXTENDS Timers, Json, IOUtils, TLCExt
 Traces == JsonDeserialize(IOEnv.TRACE_FILE)
-VARIABLES tid, l, bad
-tvars == <<vars, tid, l, bad>>
+VARIABLES tid, l, bad, fam
+tvars == <<vars, tid, l, bad, fam>>
 T == Traces[tid].events
 E == T[l]
-TInit == /\ tid \in 1..Len(Traces) /\ l = 1 /\ bad = "none"
+TInit == /\ tid \in 1..Len(Traces) /\ l = 1 /\ bad = "none" /\ fam = "none"
          /\ conf = Traces[tid].conf
          /\ now = Traces[tid].t0 /\ pc = "init" /\ wake = Traces[tid].t0 + conf.initdelay /\ started = 0 /\ lastReset = Traces[tid].t0
          /\ out = [k |-> "ok", d |-> 0] /\ retry = 0
@@ -17,6 +17,9 @@ Ev(e) == l <= Len(T) /\ E.ev = e /\ E.t = now /\ l' = l + 1 /\ UNCHANGED tid
 TStart == Ev("start") /\ HeadWith(E.dur, [k |-> E.k, d |-> E.d]) /\ pc' = "run" /\ retry = E.retry
 TEnd == Ev("end") /\ End
 TChange == Ev("change") /\ Change
+\* what the code does (F6): without any change-detecting handler no diff-base is stored, so every event of the object --
+\* the echo of the timer's own status patch included -- counts as a change and restarts the idle period
+TSelf == Ev("selfchange") /\ Traces[tid].nochange /\ Change
 TStop == Ev("stop") /\ (IF stopped THEN UNCHANGED vars ELSE Stop)
 TQuiet == Ev("quiet") /\ ~Urgent /\ UNCHANGED vars
 SilentHead == HeadWith(0, [k |-> "ok", d |-> 0]) /\ pc' \in {"poll", "idle"} /\ UNCHANGED <<tid, l>>
@@ -27,13 +30,15 @@ AllInv == FirstRun /\ NoOverlap /\ IdleLaw /\ AfterOk /\ AfterOkSharp /\ AfterTe
 FirstBad == IF ~FirstRun THEN "FirstRun" ELSE IF ~NoOverlap THEN "NoOverlap" ELSE IF ~IdleLaw THEN "IdleLaw" ELSE IF ~AfterOk THEN "AfterOk"
             ELSE IF ~AfterOkSharp THEN "AfterOkSharp" ELSE IF ~AfterTemp THEN "AfterTemp" ELSE IF ~AfterExc THEN "AfterExc"
             ELSE IF ~PermanentEndsIt THEN "PermanentEndsIt" ELSE "none"
-TNext == (TStart \/ TEnd \/ TChange \/ TStop \/ TQuiet \/ SilentHead \/ Advance) /\ bad' = (IF bad # "none" THEN bad ELSE FirstBad')
+TNext == /\ (TStart \/ TEnd \/ TChange \/ TSelf \/ TStop \/ TQuiet \/ SilentHead \/ Advance) /\ bad' = (IF bad # "none" THEN bad ELSE FirstBad')
+         /\ fam' = (IF l <= Len(T) /\ l' = l + 1 /\ E.ev = "selfchange" THEN "F6" ELSE fam)
 TSpec == TInit /\ [][TNext]_tvars
 Max2(a, b) == IF a >= b THEN a ELSE b
 Book == /\ TLCSet(3, [TLCGet(3) EXCEPT ![tid] = Max2(@, l)])
+        /\ (IF l = Len(T) + 1 /\ bad = "none" THEN TLCSet(4, [TLCGet(4) EXCEPT ![tid] = fam]) ELSE TRUE)
         /\ IF bad = "none" THEN TLCSet(1, [TLCGet(1) EXCEPT ![tid] = Max2(@, l)])
            ELSE IF l >= TLCGet(3)[tid] THEN TLCSet(2, [TLCGet(2) EXCEPT ![tid] = bad]) ELSE TRUE
-ASSUME TLCSet(1, [i \in 1..Len(Traces) |-> 0]) /\ TLCSet(3, [i \in 1..Len(Traces) |-> 0]) /\ TLCSet(2, [i \in 1..Len(Traces) |-> "none"])
+ASSUME TLCSet(1, [i \in 1..Len(Traces) |-> 0]) /\ TLCSet(3, [i \in 1..Len(Traces) |-> 0]) /\ TLCSet(2, [i \in 1..Len(Traces) |-> "none"]) /\ TLCSet(4, [i \in 1..Len(Traces) |-> "none"])
 Verdicts == \A i \in 1..Len(Traces) :
-     PrintT(<<"VERDICT", i, Traces[i].id, TLCGet(1)[i] - 1, TLCGet(3)[i] - 1, Len(Traces[i].events), TLCGet(2)[i], "none">>)
+     PrintT(<<"VERDICT", i, Traces[i].id, TLCGet(1)[i] - 1, TLCGet(3)[i] - 1, Len(Traces[i].events), TLCGet(2)[i], TLCGet(4)[i]>>)
 =============================================================================
